@@ -7,6 +7,7 @@
 3. Thread-scheduler determinism and replay: same seed -> same switch list and outcomes; replaying the explicit
    switch list reproduces them.
 """
+import json as _json
 import random
 
 from . import seeds
@@ -118,6 +119,24 @@ def determinism(ctx, n):
     from .checks import c15
     truns = [c15.make_run(ctx.seed + 1, i) for i in range(max(4, n // 4))]
     tjobs = [{"specs": r["specs"], "sched": r["sched"]} for r in truns]
+    from .checks import c14, c16, c17
+    from .scenario import cli_spec
+    hjobs = [{"ops": c14.make_history(ctx.seed + 2, i)} for i in range(max(6, n // 3))]
+    cruns = [c16.make_run(ctx.seed + 3, i) for i in range(max(6, n // 3))]
+    cjobs = [cli_spec(r["scenario"], clock=r["clock"], glob_seed=r["glob_seed"]) for r in cruns]
+    cjobs += [c17.make_spec(r["scenario"], "o_present", glob_seed=1, crash_at=200 + 37 * k) for k, r in enumerate(cruns[:4])]
+
+    def cli_digest(results):
+        out = []
+        for r in results:
+            r = dict(unwrap(r))
+            d = r.pop("dir")
+            if r.get("out_b64"):  # the scratch directory name (random) appears in the header's command line
+                import base64
+                r["out_b64"] = base64.b64decode(r["out_b64"]).decode("utf-8", "replace").replace(d, "<DIR>")
+            out.append(seeds.digest(_json.loads(_json.dumps(r).replace(d, "<DIR>"))))
+        return out
+
     digests = []
     for workers, hs in ((1 if n <= 40 else 4, 0), (ctx.jobs, 0), (ctx.jobs, 7)):
         with Pool(workers, instrument=True, hashseed=hs) as p:
@@ -132,10 +151,12 @@ def determinism(ctx, n):
             for a, b in zip(t1, t2):
                 if a["outcomes"] != b["outcomes"] or a["schedule"] != b["schedule"] or a["steps"] != b["steps"]:
                     raise HarnessError("baton schedule replay diverged")
-            digests.append((d1, [seeds.digest([t["outcomes"], t["schedule"], t["steps"]]) for t in t1]))
+            h1 = _digest_outcomes(p.map("checks.c14:job_history", hjobs, timeout=120))
+            c1 = cli_digest(p.map("simenv:job_cli", cjobs, timeout=120))
+            digests.append((d1, [seeds.digest([t["outcomes"], t["schedule"], t["steps"]]) for t in t1], h1, c1))
     if any(d != digests[0] for d in digests[1:]):
         raise HarnessError("event-log digests depend on worker count or harness hash seed")
-    return len(jobs) * 6 + len(tjobs) * 6
+    return len(jobs) * 6 + len(tjobs) * 6 + (len(hjobs) + len(cjobs)) * 3
 
 
 def run(ctx):
